@@ -74,6 +74,9 @@ type Rewriter struct {
 	P  *Pattern
 	M  *Matcher
 	St Stats
+	// LaxBindings accepts a rewritten nested instance inside the copy of a metavariable binding
+	// also for expression and declaration patterns (diagnostic mode).
+	LaxBindings bool
 }
 
 // NewRewriter builds a rewriter for a pattern.
@@ -86,6 +89,14 @@ func (r *Rewriter) instantiate(plus *N, env *Env) *N {
 		if _, isMeta := r.P.Meta[name]; isMeta {
 			if b, ok := env.Bind[name]; ok {
 				c := r.rewrite(b, true)
+				if r.P.Kind != "stmts" && !r.LaxBindings {
+					// C03: a metavariable occurrence is replaced by a syntactically identical copy of
+					// the code it stood for; an instance nested in that code lies inside another
+					// rewritten instance (C01 does not ask for its rewriting). For statement patterns
+					// C01 ("the first instance in every block") and C03 pull in opposite directions
+					// for a block inside a binding: there both outcomes are accepted.
+					c = b
+				}
 				c2 := *c
 				c2.Static = plus.Static
 				return &c2
